@@ -51,6 +51,14 @@ var zzAliases = []zzAlias{
 	{"err in map", "m := {k:errmsg}\nn := str2num \"zz\"\nprint (m.k == \"\") err n\n", "print:true true 0\n"},
 	{"err argument", "func keep:bool p:bool\n    n := str2num \"zz\"\n    print \"in\" n\n    return p\nend\ny := keep err\nprint y err\n", "print:in 0\n|print:false true\n"},
 	{"err any", "v:any\nv = err\nn := str2num \"zz\"\nprint v err n\n", "print:false true 0\n"},
+	// err / errmsg stored by assignment into containers, returned from functions, wrapped in any
+	{"err map field assign", "m := {k:true}\nm.k = err\nn := str2num \"zz\"\nprint m err n\n", "print:{k:false} true 0\n"},
+	{"err map index assign", "m := {k:\"x\"}\nm[\"k\"] = errmsg\nn := str2num \"zz\"\nprint (m.k == \"\") err n\n", "print:true true 0\n"},
+	{"err array index assign", "arr := [true]\narr[0] = err\nn := str2num \"zz\"\nprint arr err n\n", "print:[false] true 0\n"},
+	{"err returned", "func geterr:bool\n    return err\nend\nm := {k:true}\nm.k = geterr\ne := geterr\nn := str2num \"zz\"\nprint m e err n\n", "print:{k:false} false true 0\n"},
+	{"err any map", "m:{}any\nm.k = errmsg\nm.j = err\nn := str2num \"zz\"\nprint m err n\n", "print:{k: j:false} true 0\n"},
+	{"errmsg after failure kept", "n := str2num \"zz\"\nm := {k:\"\"}\nm.k = errmsg\narr := [\"\"]\narr[0] = errmsg\nn = str2num \"1\"\nprint m arr err n\n", "print:{k:str2num: cannot parse \"zz\"} [str2num: cannot parse \"zz\"] false 1\n"},
+	{"num map field assign copies", "m := {k:0}\nm.k = a\nm[\"j\"] = a\na = b\nprint m a\n", "print:{k:%A j:%A} %B\n"},
 	// ---- composites are shared ----
 	{"array decl", "x := [a 2]\ny := x\nx[0] = b\nprint x y\n", "print:[%B 2] [%B 2]\n"},
 	{"array assign", "x := [a 2]\ny := [0]\ny = x\ny[0] = b\nprint x y\n", "print:[%B 2] [%B 2]\n"},
@@ -76,6 +84,12 @@ var zzAliases = []zzAlias{
 	{"repeat copies apart", "x := [[a]]\ny := x * 2\ny[0][0] = b\nprint x y\n", "print:[[%A]] [[%B] [%A]]\n"},
 	{"slice shallow", "x := [[a]]\ny := x[:]\nx[0][0] = b\nprint x y\n", "print:[[%B]] [[%B]]\n"},
 	{"concat shallow", "x := [[a]]\ny := x + x\nx[0][0] = b\nprint y\n", "print:[[%B] [%B]]\n"},
+	// repetition deep-copies composites also when they sit in an any
+	{"repeat any array", "row := [a]\nsrc:[]any\nsrc = [row 0]\nrep := src * 2\nrow[0] = b\nprint src rep\n", "print:[[%B] 0] [[%A] 0 [%A] 0]\n"},
+	{"repeat any array apart", "row := [a]\nsrc:[]any\nsrc = [row 0]\nrep := src * 2\nr0 := rep[0].([]num)\nr0[0] = b\nprint row rep\n", "print:[%A] [[%B] 0 [%A] 0]\n"},
+	{"repeat any map", "m := {k:a}\nsrc:[]any\nsrc = [m 0]\nrep := src * 2\nm.k = b\nprint src rep\n", "print:[{k:%B} 0] [{k:%A} 0 {k:%A} 0]\n"},
+	{"repeat map in array", "m := {k:a}\nrep := [m] * 2\nm.k = b\nrep[0].j = b\nprint m rep\n", "print:{k:%B} [{k:%A j:%B} {k:%A}]\n"},
+	{"repeat nested any", "inner:any\ninner = [a]\nrep := [[inner]] * 2\nx := inner.([]num)\nx[0] = b\nprint rep\n", "print:[[[%A]] [[%A]]]\n"},
 	{"string slice", "s := \"añb\"\nt := s[1:]\ns = \"x\"\nprint s t a b\n", "print:x ñb %A %B\n"},
 }
 
